@@ -153,8 +153,96 @@ static void planar(vh::Out & out)
   }
 }
 
+// generic (non-lattice) inputs: residuals of the consistency relations in units of 1e-12
+template<class S>
+static void generic(vh::Rng & r, vh::Out & out)
+{
+  using V3 = Eigen::Matrix<S, 3, 1>;
+  using M3 = Eigen::Matrix<S, 3, 3>;
+  auto u = [&]() {return (double)r.range(-1000000, 1000000) / 1000000.0;};
+  auto units = [](double v) {double x = std::fabs(v) * 1e12; return x < 2e9 ? (long long)std::llround(x) : 2000000000LL;};
+  auto angDiff = [](double a, double b) {return std::fabs(std::remainder(a - b, 2 * M_PI));};
+  std::vector<long long> res;
+  bool inRange = true;
+  double roll = u() * 2 * M_PI * 0.999, pitch = u() * (M_PI / 2 - 1e-3), yaw = u() * 2 * M_PI * 0.999;
+  if (r.coin(1, 6)) {pitch = (r.coin() ? 1 : -1) * (M_PI / 2 - 1e-3);}                      // the edge of the quantified pitch range
+  V3 ang((S)roll, (S)pitch, (S)yaw);
+  roll = (double)ang[0]; pitch = (double)ang[1]; yaw = (double)ang[2];
+  Eigen::Matrix3d ref;
+  {
+    double cr = std::cos(roll), sr = std::sin(roll), cp = std::cos(pitch), sp = std::sin(pitch), cy = std::cos(yaw), sy = std::sin(yaw);
+    ref << cy * cp, cy * sp * sr - sy * cr, cy * sp * cr + sy * sr,
+      sy * cp, sy * sp * sr + cy * cr, sy * sp * cr - cy * sr,
+      -sp, cp * sr, cp * cr;
+  }
+  M3 Rm = eulerAnglesToRotation3D(ang);
+  Eigen::Quaternion<S> q = eulerAnglesToQuaternion(ang);
+  res.push_back(units((Rm.template cast<double>() - ref).cwiseAbs().maxCoeff()));                         // closed form Rz Ry Rx
+  res.push_back(units((q.toRotationMatrix().template cast<double>() - ref).cwiseAbs().maxCoeff()));      // quaternion path
+  res.push_back(units((Rm * Rm.transpose() - M3::Identity()).cwiseAbs().maxCoeff()));                    // orthogonal
+  res.push_back(units((double)Rm.determinant() - 1));                                                     // proper
+  if (sizeof(S) == 8) {SmartRotation3D sr(roll, pitch, yaw); res.push_back(units((sr.R() - ref).cwiseAbs().maxCoeff()));}
+  V3 b = rotation3DToEulerAngles(Rm);
+  // near the edge of the pitch range asin is ill conditioned: the recovered angles are compared through the rotation they describe
+  M3 Rb = eulerAnglesToRotation3D(b);
+  // asin amplifies the rounding of R(2,0) by 1 / cos(pitch) (up to 1000 at the edge of the range): scale the tolerance with it
+  const double edge = std::max(1.0, 1.0 / std::cos(pitch) / 100.0);
+  res.push_back(units((Rb - Rm).cwiseAbs().maxCoeff() / edge));
+  if (std::fabs(pitch) < M_PI / 2 - 0.05) {
+    res.push_back(units(angDiff(b[0], roll))); res.push_back(units(angDiff(b[1], pitch))); res.push_back(units(angDiff(b[2], yaw)));
+  }
+  double qs = std::exp(u() * 6);                                                                           // non-unit quaternion, norm in [2.5e-3, 400]
+  Eigen::Quaternion<S> qq(q.w() * (S)qs, q.x() * (S)qs, q.y() * (S)qs, q.z() * (S)qs);
+  V3 qb = quaternionToEulerAngles(qq);
+  res.push_back(units((eulerAnglesToRotation3D(qb) - Rm).cwiseAbs().maxCoeff() / edge));
+  // any rotation -> angles -> rotation (|R(2,0)| <= 1 - 1e-6)
+  Eigen::Quaterniond rq(u(), u(), u(), u());
+  if (rq.norm() > 1e-3) {
+    Eigen::Matrix<S, 3, 3> Rr = rq.normalized().toRotationMatrix().template cast<S>();
+    if (std::fabs((double)Rr(2, 0)) <= 1 - 1e-6) {
+      // condition number of asin near +-1 amplifies rounding by 1/sqrt(1 - r20^2): scale the residual accordingly
+      double amp = 1.0 / std::sqrt(std::max(1e-12, 1 - (double)Rr(2, 0) * Rr(2, 0)));
+      res.push_back(units((eulerAnglesToRotation3D(rotation3DToEulerAngles(Rr)) - Rr).cwiseAbs().maxCoeff() / std::max(1.0, amp)));
+    }
+  }
+  // normalisers on (-4 pi, 4 pi)
+  double th = u() * 4 * M_PI * 0.999;
+  S thS = (S)th; th = (double)thS;
+  double n1 = (double)between0And2Pi(thS), n2 = (double)betweenMinusPiAndPi(thS);
+  double ntol = sizeof(S) == 4 ? 1e-5 : 1e-9;
+  res.push_back(units(angDiff(n1, th)) / (sizeof(S) == 4 ? 1 : 1)); res.push_back(units(angDiff(n2, th)));
+  if (!(n1 >= -ntol && n1 <= 2 * M_PI + ntol && n2 >= -M_PI - ntol && n2 <= M_PI + ntol)) {inRange = false;}
+  // planar pair
+  S a2 = (S)(u() * 2 * M_PI);
+  res.push_back(units(angDiff((double)rotation2DToEulerAngle(eulerAngleToRotation2D(a2)), (double)a2)));
+  // polar / spherical round trips, relative to the norm (norm in [1e-6, 1e6])
+  double nrm = std::exp(u() * 13.8);
+  {
+    double az = u() * M_PI;
+    CartesianCoordinates2<S> c((S)(nrm * std::cos(az)), (S)(nrm * std::sin(az)));
+    auto pol = toPolar(c);
+    double x = PolarTransform::x(pol), y = PolarTransform::y(pol);
+    res.push_back(units(std::hypot(x - (double)c.x(), y - (double)c.y()) / nrm));
+    double el = 0.05 + (u() + 1) / 2 * (M_PI - 0.1);              // away from the polar axis, where acos(z / r) loses half its digits
+    CartesianCoordinates3<S> c3((S)(nrm * std::cos(az) * std::sin(el)), (S)(nrm * std::sin(az) * std::sin(el)), (S)(nrm * std::cos(el)));
+    // (toSpherical() does not compile for float: it mixes a double range with float coordinates)
+    SphericalCoordinates<S> sp(SphericalTransform::range(c3), SphericalTransform::azimut(c3), SphericalTransform::elevation(c3));
+    double x3 = SphericalTransform::x(sp), y3 = SphericalTransform::y(sp), z3 = SphericalTransform::z(sp);
+    res.push_back(units(std::sqrt((x3 - c3.x()) * (x3 - c3.x()) + (y3 - c3.y()) * (y3 - c3.y()) + (z3 - c3.z()) * (z3 - c3.z())) / nrm));
+  }
+  out.put(vh::Ev("generic").i("float", sizeof(S) == 4).vec("res", res).b("inRange", inRange));
+}
+
 int main(int argc, char ** argv)
 {
+  if (argc == 5 && std::string(argv[1]) == "generic") {
+    vh::Rng r(std::strtoull(argv[2], nullptr, 10));
+    int n = std::atoi(argv[3]);
+    vh::Out out(argv[4]);
+    for (int k = 0; k < n; ++k) {if (k % 500 == 0) {out.put(vh::Ev("Reset"));} if (k % 3 == 2) {generic<float>(r, out);} else {generic<double>(r, out);}}
+    std::printf("%lld\n", out.lines);
+    return 0;
+  }
   std::string mode = argc > 1 ? argv[1] : "";
   if (argc != 3) {std::fprintf(stderr, "usage: drive_rot all|smart out\n"); return 3;}
   vh::Out out(argv[2]);
